@@ -1254,6 +1254,24 @@ class Printer:
             for c in inits:
                 any_ = c.get('anyInit')
                 if not any_ or not c.get('inner'):
+                    if c.get('delegatingInit') and c.get('inner'):
+                        # delegating constructor `T(a) : T(f(a), g(a)) {}`: the target constructor is a `calls` mapping on
+                        # `ctor|<type>|<ctorType>` that names {self} (an extracted constructor or its contract): `target(self, args..);`
+                        e = c['inner'][0]
+                        while e.get('kind') in ('ExprWithCleanups', 'MaterializeTemporaryExpr', 'CXXBindTemporaryExpr') and e.get('inner'):
+                            e = e['inner'][0]
+                        if e.get('kind') != 'CXXConstructExpr':
+                            raise Unsupported(f'delegating initialiser of kind {e.get("kind")}')
+                        key = f'ctor|{strip_cv(qual(e["type"]))}|{e.get("ctorType", {}).get("qualType", "")}'
+                        m = self.lookup(self.calls, key)
+                        if m is None or '{self}' not in m:
+                            raise Unsupported(f'delegating constructor not mapped (the mapping must name {{self}}): {key}')
+                        self.hoisted = []
+                        call = self.apply(m, e.get('inner', []), selfexpr='self', node=e, key=key)
+                        pre += ''.join(f'  {h}\n' for h in self.hoisted)
+                        self.hoisted = None
+                        pre += f'  {call};\n' + self.after('  ')
+                        continue
                     if c.get('baseInit'):
                         e = self.expr(c['inner'][0]) if c.get('inner') else '((void)0)'
                         pre += f'  {e};\n' if e != '((void)0)' else ''
